@@ -106,7 +106,7 @@ class C18(PipelineCheck):
     def finish(self, agg):
         d = agg.get('c18') or {}
         n, b = d.get('unbiased', 0), d.get('unbiased_budget', 0)
-        if n >= 100 and b > 0.25 * n:
+        if n >= 60 and b > 0.25 * n:
             return [{'rule': 'bounded-work', 'sig': 'budget-rate|unbiased',
                      'detail': '%d of %d unbiased runs exhausted the deterministic work '
                                'budget' % (b, n)}]
